@@ -144,7 +144,6 @@ def schema_yaml(sid, d, v):
     if v.get("strict"):
         lines.append("  strict_spelling: true")
     if v.get("algebra"):
-        lines.append("speller_algebra_placeholder: 0")
         i = lines.index("speller:")
         lines[i + 1:i + 1] = ["  algebra:"] + ["    - %s" % json.dumps(f) for f in v["algebra"]]
     return "\n".join(lines) + "\n"
@@ -171,6 +170,42 @@ TABLE_VARIANTS = [
 ]
 
 
+def gen_algebra(rng, d):
+    """one or two anchored literal rules: derive/^X$/Y/ (X keeps its own spelling and gains Y) or xform/^X$/Y/ (X is
+    spelled Y only).  Y is another syllable (two syllables then share a spelling) or a fresh string."""
+    syl = d["syllables"]
+    rules, used = [], set()
+    for _ in range(rng.choice([1, 1, 2])):
+        x = rng.choice(syl)
+        if rng.random() < .7 and len(syl) > 1:
+            y = rng.choice([s for s in syl if s != x])
+        else:
+            y = "".join(rng.choice(d["letters"]) for _ in range(rng.randint(1, 2)))
+        if x in used or y in used or x == y:
+            continue
+        used.update([x, y])
+        rules.append("%s/^%s$/%s/" % (rng.choice(["derive", "derive", "xform"]), x, y))
+    return rules or ["derive/^%s$/%s/" % (syl[0], syl[-1])] if len(syl) > 1 else []
+
+
+def apply_algebra(syllables, rules):
+    """the Script (spelling -> set of syllables) Projection::Apply yields for anchored literal derive/xform rules"""
+    script = {s: {s} for s in syllables}
+    for r in rules:
+        kind, pat, rep = r.split("/")[:3]
+        x = pat[1:-1]
+        new = {}
+        for k, syls in script.items():
+            if k == x and rep != k:
+                new.setdefault(rep, set()).update(syls)
+                if kind == "derive":
+                    new.setdefault(k, set()).update(syls)
+            else:
+                new.setdefault(k, set()).update(syls)
+        script = new
+    return script
+
+
 def gen_inputs(rng, d, v, bound, nrandom, maxlen):
     symbols = d["letters"] + v["delims"][-1]
     inputs = []
@@ -178,18 +213,22 @@ def gen_inputs(rng, d, v, bound, nrandom, maxlen):
         inputs += ["".join(t) for t in itertools.product(symbols, repeat=l)]
     seen = set(inputs)
     rows = d["rows"]
+    spell = {}
+    for k, syls in apply_algebra(d["syllables"], v.get("algebra", [])).items():
+        for s_ in syls:
+            spell.setdefault(s_, []).append(k)
     for _ in range(nrandom):
         r = rng.random()
         if r < .55:                      # concatenation of row codes (hits long codes, the tail page, sentences)
             s = ""
             while len(s) < rng.randint(2, maxlen):
-                code = rng.choice(rows)[1]
+                code = [rng.choice(spell[x]) for x in rng.choice(rows)[1]]
                 sep = rng.choice(["", "", "", v["delims"][-1]])
                 s += sep.join(code) + rng.choice(["", "", v["delims"][-1]])
             if rng.random() < .4:
                 s = s[:rng.randint(1, len(s))]     # cut inside a syllable: completion
         elif r < .8:
-            s = "".join(rng.choice(d["syllables"]) for _ in range(rng.randint(2, 7)))
+            s = "".join(rng.choice(spell[rng.choice(d["syllables"])]) for _ in range(rng.randint(2, 7)))
         else:
             s = "".join(rng.choice(symbols) for _ in range(rng.randint(bound + 1, maxlen)))
         s = s[:maxlen]
@@ -350,9 +389,16 @@ def make_plan(ctx, rng):
     files, schemas = {}, []
     for d in dicts:
         files["%s.dict.yaml" % d["name"]] = dict_yaml(d)
-        vs = SCRIPT_VARIANTS if d["style"] == "script" else TABLE_VARIANTS
+        vs = list(SCRIPT_VARIANTS if d["style"] == "script" else TABLE_VARIANTS)
         if d["style"] == "table":
-            vs = TABLE_VARIANTS + SCRIPT_VARIANTS[:2]       # a table-style dictionary under the script translator too
+            vs += SCRIPT_VARIANTS[:2]       # a table-style dictionary under the script translator too
+        if d["style"] != "wide":            # spelling algebra: two syllables may share a spelling, one may have two
+            alg = gen_algebra(rng, d)
+            if alg and d["style"] == "script":
+                vs += [dict(SCRIPT_VARIANTS[0], algebra=alg), dict(SCRIPT_VARIANTS[1], algebra=gen_algebra(rng, d) or alg)]
+            elif alg:
+                vs += [dict(TABLE_VARIANTS[0], algebra=alg), dict(TABLE_VARIANTS[1], algebra=alg),
+                       dict(TABLE_VARIANTS[2], algebra=gen_algebra(rng, d) or alg)]
         for k, v in enumerate(vs):
             sid = "%s_v%d" % (d["name"], k)
             files["%s.schema.yaml" % sid] = schema_yaml(sid, d, v)
@@ -376,8 +422,488 @@ def run_harness(ctx, exe, ws, schemas, inputs_of):
     return rc, out, err
 
 
+# ---------------------------------------------------------------------------
+# feeding the extracted model
+# ---------------------------------------------------------------------------
+
+def zhex(v):
+    return ("-%x" % -v) if v < 0 else ("%x" % v)
+
+
+def code_str(c):
+    return ".".join(str(x) for x in c) or "-"
+
+
+def model_schema_lines(blk, v):
+    L = ["R"]
+    for code, nxt, ents in blk["nodes"]:
+        L.append("N %s %d %s" % (code_str(code), 1 if nxt else 0,
+                                 ",".join("%s:%s" % (hx(t), zhex(scaled(fbits_to_frac(w)))) for t, w in ents) or "-"))
+    for code, ents in blk["tails"]:
+        L.append("L %s %s" % (code_str(code), ",".join("%s:%s:%s" % (code_str(x), hx(t), zhex(scaled(fbits_to_frac(w))))
+                                                        for x, t, w in ents) or "-"))
+    for k, sp in blk["keys"]:
+        L.append("K %s %s" % (hx(k), ",".join("%d:%d" % (a, b) for a, b, _ in sp) or "-"))
+    for i in sorted(blk["syl"]):
+        L.append("Y %d %s" % (i, hx(blk["syl"][i])))
+    o = blk["opts"]
+    if o["kind"] == "script":
+        L.append("O script %s %s" % (o["wordcompl"], o["maxhomophones"]))
+    else:
+        L.append("O table %s %s %s" % (o["completion"], o["sentence"], o["delims"]))
+    return L
+
+
+def oracle_str(case):
+    for c in case["cands"]:
+        if c["type"] == "sentence":
+            pos, items = c["start"], []
+            for t, code, wl in c["comps"]:
+                pos += wl
+                items.append("%s:%s:%d" % (hx(t), code_str(code), pos))
+            return ",".join(items) or "-"
+    return "-"
+
+
+def model_case_line(blk, case):
+    if blk["opts"]["kind"] == "script":
+        g = parse_graph(case["graph"])
+        E = ";".join("%d=%s" % (s, "|".join("%d/%s" % (e, ",".join("%d:%d:%d:%s:%d" % (sid, ty, ep, zhex(scaled(dbits_to_frac(cr))), co)
+                                                                  for sid, ty, ep, cr, co in sp)) for e, sp in ends))
+                     for s, ends in g["edges"]) or "-"
+        I = ";".join("%d=%s" % (s, "|".join("%d/%s" % (sid, ",".join("%d:%d:%s:%d" % (e, ty, zhex(scaled(dbits_to_frac(cr))), co)
+                                                                    for e, ty, cr, co, _ in pl)) for sid, pl in ix))
+                     for s, ix in g["indices"]) or "-"
+        return "S %d %d %s %s %s" % (g["n"], g["il"], E, I, oracle_str(case))
+    return "T %s %s" % (hx(case["input"]), oracle_str(case))
+
+
+def cand_key(c):
+    return "%s %d %d %s %s" % (c["type"], c["start"], c["end"], hx(c["text"]), code_str(c["code"] or []))
+
+
+# ---------------------------------------------------------------------------
+# the property's own oracle, computed from the SOURCE ROWS (independent of model and implementation)
+# ---------------------------------------------------------------------------
+
+def weight_value(w):
+    return float(w)
+
+
+class Ref:
+    """brute-force reference for one dictionary under one variant, from the source rows and the schema's options only"""
+
+    def __init__(self, d, v):
+        self.d, self.v = d, v
+        self.syl = sorted(d["syllables"])                       # the syllabary is a sorted set; id = rank
+        self.sid = {s: i for i, s in enumerate(self.syl)}
+        self.rows = [(t.encode("utf-8"), tuple(self.sid[s] for s in code), weight_value(w)) for t, code, w in d["rows"]]
+        self.by_tc = {}
+        for t, c, w in self.rows:
+            self.by_tc[(t, c)] = max(w, self.by_tc.get((t, c), w))
+        self.delims = v["delims"]
+        # spelling -> syllable ids (identity without algebra)
+        self.spell = {k: sorted(self.sid[x] for x in syls) for k, syls in apply_algebra(self.syl, v.get("algebra", [])).items() if k}
+        self.word = {}                                          # (text, syllable id) -> weight, single-syllable rows
+        for t, c, w in self.rows:
+            if len(c) == 1:
+                self.word[(t, c[0])] = max(w, self.word.get((t, c[0]), w))
+        self.word_sids = {sid for _, sid in self.word}
+
+    def in_domain(self, inp):
+        return bool(inp) and inp[0] not in self.delims
+
+    def consume(self, inp, pos):
+        while pos < len(inp) and inp[pos] in self.delims:
+            pos += 1
+        return pos
+
+    # --- segmentation of an input (script style) -------------------------------------------------
+    def edges_from(self, inp, i):
+        """[(syllable id, end)] spelled at position i (trailing delimiters consumed)"""
+        out = []
+        for k, sids in self.spell.items():
+            if inp.startswith(k, i):
+                e = self.consume(inp, i + len(k))
+                out += [(sid, e) for sid in sids]
+        return out
+
+    def analyse(self, inp):
+        n = len(inp)
+        E = {i: self.edges_from(inp, i) for i in range(n)}
+        reach = {0}
+        for i in range(n):
+            if i in reach:
+                for _, e in E[i]:
+                    reach.add(e)
+        far = max(reach)
+        comp = []
+        il = far
+        if self.v["completion"] and far < n:                  # the completion edge far -> n
+            rest = inp[far:]
+            comp = sorted({sid for k, sids in self.spell.items() if k.startswith(rest) for sid in sids})
+            if comp:
+                il = n
+        co = {far}
+        for i in range(far - 1, -1, -1):
+            if i in reach and any(e in co for _, e in E[i]):
+                co.add(i)
+        if il > far:
+            co.add(il)
+        return dict(n=n, E=E, reach=reach, far=far, il=il, comp=comp, co=co)
+
+    def ends_of(self, an, code, start):
+        """end positions of the paths labelled by code from start (completion edge included)"""
+        cur = {start}
+        for s in code:
+            nxt = set()
+            for p in cur:
+                for sid, e in an["E"].get(p, ()):
+                    if sid == s:
+                        nxt.add(e)
+                if p == an["far"] and an["il"] > an["far"] and s in an["comp"]:
+                    nxt.add(an["il"])
+            cur = nxt
+            if not cur:
+                break
+        return cur
+
+    def check_script(self, inp, cands, wordcompl):
+        """-> list of (class, detail): failures of the property on the observed candidate list"""
+        an = self.analyse(inp)
+        fails = []
+        il = an["il"]
+        for c in cands:                                        # nothing foreign
+            ty = c["type"]
+            if ty == "NULL" or c["start"] != 0:
+                fails.append(("bad-candidate", cand_key(c) if ty != "NULL" else "NULL"))
+                continue
+            code = tuple(c["code"] or ())
+            if ty == "phrase":
+                ok = (c["text"], code) in self.by_tc and c["end"] in self.ends_of(an, code, 0) and c["end"] in an["co"]
+                if not ok:
+                    fails.append(("foreign-phrase", cand_key(c)))
+            elif ty == "completion":
+                ok = wordcompl and il == an["n"] and c["end"] == il and (c["text"], code) in self.by_tc and \
+                    any(il in self.ends_of(an, code[:j], 0) for j in range(1, len(code)))
+                if not ok:
+                    fails.append(("foreign-completion", cand_key(c)))
+            elif ty == "sentence":
+                pos, ok, txt = 0, len(c["comps"]) >= 1, b""
+                for t, ccode, wl in c["comps"]:
+                    ok = ok and (t, tuple(ccode)) in self.by_tc and (pos + wl) in self.ends_of(an, tuple(ccode), pos)
+                    pos += wl
+                    txt += t
+                ok = ok and pos == il and c["end"] == il and txt == c["text"]
+                if not ok:
+                    fails.append(("foreign-sentence", cand_key(c)))
+            else:
+                fails.append(("foreign-type", cand_key(c)))
+        for (t, code), w in self.by_tc.items():                # every spelled entry is there
+            ends = [e for e in self.ends_of(an, code, 0) if e in an["co"]]
+            if ends and not any(c.get("text") == t and c.get("end", -1) >= min(ends) for c in cands):
+                fails.append(("missing-entry", "%s %s end=%d" % (hx(t), code_str(code), max(ends))))
+        ph = [c for c in cands if c["type"] in ("phrase", "completion")]
+        for a, b in zip(ph, ph[1:]):                           # longer before shorter
+            if a["end"] < b["end"]:
+                fails.append(("shorter-before-longer", cand_key(a) + " < " + cand_key(b)))
+        last = {}
+        for c in ph:                                           # same code: non-increasing weight
+            key = (tuple(c["code"] or ()), c["end"])
+            w = self.by_tc.get((c["text"], key[0]))
+            if w is None:
+                continue
+            if key in last and w > last[key][0]:
+                fails.append(("weight-order", cand_key(last[key][1]) + " before " + cand_key(c)))
+            last[key] = (w, c)
+        return fails
+
+    # --- table style -------------------------------------------------------------------------------
+    def check_table(self, inp, cands):
+        v, n = self.v, len(inp)
+        fails = []
+        code = inp.rstrip(self.delims)
+        exact_sids = set(self.spell.get(code, []))
+        ext_sids = {sid for k, sids in self.spell.items() if k.startswith(code) and k != code for sid in sids}
+        exact = {ts: w for ts, w in self.word.items() if ts[1] in exact_sids}
+        ext = {ts for ts in self.word if ts[1] in ext_sids}
+        has_sentence = any(c["type"] == "sentence" for c in cands)
+        if not has_sentence:
+            # judged by what the entries are, not by the type label: a maximal run of entries whose code equals the
+            # input (non-increasing weight), then only entries whose code strictly extends it (completion enabled)
+            in_exact_part, lastc = True, None
+            for c in cands:
+                if c["type"] == "NULL" or c["start"] != 0 or c["end"] != n or not c["code"] or len(c["code"]) != 1 or \
+                        c["type"] not in ("table", "completion"):
+                    fails.append(("bad-candidate", cand_key(c) if c["type"] != "NULL" else "NULL"))
+                    continue
+                ts = (c["text"], c["code"][0])
+                if in_exact_part and ts in exact:
+                    if lastc is not None and exact[ts] > exact[(lastc["text"], lastc["code"][0])]:
+                        fails.append(("weight-order", cand_key(lastc) + " before " + cand_key(c)))
+                    lastc = c
+                    continue
+                in_exact_part = False
+                if ts in ext:
+                    if not v["completion"]:
+                        fails.append(("completion-when-disabled", cand_key(c)))
+                elif ts in exact:
+                    fails.append(("exact-after-completion", cand_key(c)))
+                else:
+                    fails.append(("foreign-candidate", cand_key(c)))
+            for (t, sid) in exact:
+                if not any(c.get("text") == t for c in cands):
+                    fails.append(("missing-entry", "%s key=%s" % (hx(t), code)))
+            # the sentence option: when nothing else is offered, an input that tiles must yield candidates
+            if v["sentence"] and not cands and not exact and not (v["completion"] and ext):
+                if n in self.tiling(inp)["reach"] and n > 0:
+                    fails.append(("missing-sentence", "the input tiles but there is no candidate"))
+            return fails
+        # sentence mode (only when nothing else was offered)
+        if exact or (v["completion"] and ext) or not v["sentence"]:
+            fails.append(("unexpected-sentence", hx(inp)))
+        til = self.tiling(inp)
+
+        def word_at(t, ccode, pos, endp):
+            if len(ccode) != 1 or (t, ccode[0]) not in self.word:
+                return False
+            return any(ccode[0] in sids and inp.startswith(k, pos) and self.consume(inp, pos + len(k)) == endp
+                       for k, sids in self.spell.items())
+        for c in cands:
+            if c["type"] == "sentence":
+                pos, ok, txt = 0, len(c["comps"]) >= 2, b""
+                for t, ccode, wl in c["comps"]:
+                    ok = ok and word_at(t, ccode, pos, pos + wl)
+                    pos += wl
+                    txt += t
+                if not (ok and pos == n and c["end"] == n and c["start"] == 0 and txt == c["text"]):
+                    fails.append(("foreign-sentence", cand_key(c)))
+            elif c["type"] == "table":
+                if not (c["start"] == 0 and word_at(c["text"], c["code"] or [], 0, c["end"])):
+                    fails.append(("foreign-table", cand_key(c)))
+                elif c["end"] not in til["co"]:
+                    fails.append(("prefix-off-segmentation", cand_key(c)))
+            else:
+                fails.append(("foreign-type", cand_key(c)))
+        for k, sids in self.spell.items():
+            if inp.startswith(k) and self.consume(inp, len(k)) in til["co"]:
+                for (t, sid) in self.word:
+                    if sid in sids and not any(c.get("text") == t for c in cands):
+                        fails.append(("missing-entry", "%s key=%s" % (hx(t), k)))
+        ph = [c for c in cands if c["type"] == "table"]
+        for a, b in zip(ph, ph[1:]):
+            if a["end"] < b["end"]:
+                fails.append(("shorter-before-longer", cand_key(a) + " < " + cand_key(b)))
+        return fails
+
+    def tiling(self, inp):
+        """tilings of the whole input by keys that spell a syllable with at least one single-syllable entry"""
+        n = len(inp)
+        keys = [k for k, sids in self.spell.items() if any(s in self.word_sids for s in sids)]
+        E = {i: [self.consume(inp, i + len(k)) for k in keys if inp.startswith(k, i)] for i in range(n)}
+        reach = {0}
+        for i in range(n):
+            if i in reach:
+                reach.update(E[i])
+        co = {n}
+        for i in range(n - 1, -1, -1):
+            if any(e in co for e in E[i]):
+                co.add(i)
+        return dict(reach=reach, co=co)
+
+
+TRUSTED_BASE = [
+    "Coq 8.16.1 kernel (+ vm_compute in the examples only); no native_compute; no axioms declared",
+    "extraction: ExtrOcamlBasic only; ocaml/common/glue.ml + ocaml/c07/driver.ml are parsing/printing glue",
+    "the syllable graph (C08), the compiled table index (C06) and the prism (C09) are INPUTS of the model: the harness "
+    "dumps them from the real objects and both sides consume the same dumps",
+    "gear/poet.cc is an oracle: only its type is assumed (a chain of word-graph entries covering the input, absent iff "
+    "no such chain exists); the assumption is validated on every sentence the implementation produced",
+    "weights/credibilities are carried as exact integers (float/double value * 2^96); double rounding of "
+    "credibility + weight is not modelled",
+    "std::partial_sort(first, first+1, last) is modelled as libstdc++ implements it (swap loop); the final order of "
+    "tied chunks depends on it",
+    "harness/c07/c07.cc (ASan+UBSan build of /repo's working tree, real rime_deployer, real translators)",
+]
+
+ASSUMPTIONS = [
+    "learning off: translator/enable_user_dict: false (no user dictionary, no encoder, no charset filter)",
+    "one table per dictionary (no packs); max_homographs = 1 and sentence_over_completion = false (defaults)",
+    "Poet::MakeSentence returns a chain of word-graph entries from 0 to the total length, and nothing iff none exists",
+    "spelling algebra in the generated schemas is restricted to anchored literal derive/xform rules (all spellings of "
+    "normal type); the model itself takes arbitrary graphs and prisms",
+    "inputs starting with a delimiter are outside the property's domain (the speller refuses a delimiter as an initial): "
+    "they are checked for crashes and model agreement only",
+]
+
+
 def run(ctx):
-    raise NotImplementedError
+    ctx.coverage["trusted_base"] = TRUSTED_BASE
+    ctx.assumptions += ASSUMPTIONS
+    ctx.coverage["mutation_drills"] = MUTATION_DRILLS
+    res = vlib.proof_stage(ctx)
+    proof_ok = res["ok"]
+
+    okm, logm = vlib.coq_make(["Lookup/Model.vo"])
+    if not okm:
+        ctx.violation("model-does-not-compile", "coq/Lookup/Model.v does not compile", {"log": logm[-4000:]}, found_input=False)
+        return
+    rmodel = vlib.ocaml_build("c07", "Extract_C07.v", DRIVER)
+    b = vlib.librime_build("asan")
+    exe = vlib.cxx_build(os.path.join(vlib.WORK, "bin", "c07"), [HARNESS], flags="-I%s/src" % b,
+                         libs="-L%s/lib -lrime -lglog -Wl,-rpath,%s/lib" % (b, b))
+    rng = random.Random(ctx.seed * 7919 + (1 if ctx.tier == "quick" else 2))
+    dicts, schemas, files = make_plan(ctx, rng)
+    ws = build_workspace(files, b)
+    quick = ctx.tier == "quick"
+    inputs_of = {}
+    for sid, d, v in schemas:
+        bound = (4 if len(d["letters"]) <= 2 else 3) if quick else (6 if len(d["letters"]) <= 2 else (5 if len(d["letters"]) == 3 else 4))
+        inputs_of[sid] = gen_inputs(rng, d, v, bound, 40 if quick else 250, 14 if quick else 20)
+    rc, out, err = run_harness(ctx, exe, ws, schemas, inputs_of)
+    blocks = parse_output(out)
+    ncases_expected = sum(len(x) for x in inputs_of.values())
+    ncases = sum(len(bk["cases"]) for bk in blocks)
+    if rc != 0 or ncases != ncases_expected or any(c["end"] is None for bk in blocks for c in bk["cases"]):
+        last = None
+        for bk in blocks:
+            if bk["cases"]:
+                last = (bk["id"], hx(bk["cases"][-1]["input"]))
+        ctx.violation("harness-abort", "the translator harness ended abnormally (sanitizer report or crash) rc=%d" % rc,
+                      {"stderr": err[-6000:], "last_case": last, "cases_done": ncases, "cases_expected": ncases_expected,
+                       "files": {k: files[k] for k in files if last and k.startswith(last[0].split("_")[0])}},
+                      found_input=True)
+    # --- model run
+    feed, index = [], []
+    by_id = {sid: (d, v) for sid, d, v in schemas}
+    for bk in blocks:
+        if bk["opts"].get("ok") != "1":
+            ctx.violation("schema-not-loaded:" + bk["id"], "a generated schema could not be loaded by the harness",
+                          {"schema": bk["id"], "opts": bk["opts"]}, found_input=False)
+            continue
+        feed += model_schema_lines(bk, by_id[bk["id"]][1])
+        for case in bk["cases"]:
+            if case["end"] is None:
+                continue
+            feed.append(model_case_line(bk, case))
+            index.append((bk, case))
+    rc2, mout, merr = vlib.sh2([rmodel], stdin="\n".join(feed) + "\n", timeout=2400)
+    mlines = [l for l in mout.split("\n") if l]
+    mism, oracle_bad = [], []
+    stats = {"script": 0, "table": 0, "sentence": 0, "completion_cands": 0, "long_code_cands": 0, "tail_hits": 0,
+             "candidates": 0, "empty": 0, "distinct_dropped": 0, "fetch_more": 0, "prefix_phrases": 0, "ties": 0}
+    nontrivial = set()
+    if rc2 != 0 or len(mlines) != len(index):
+        ctx.violation("model-run", "the extracted model did not answer every case", {"rc": rc2, "stderr": merr[-2000:],
+                      "lines": len(mlines), "cases": len(index)}, found_input=False)
+    for (bk, case), ml in zip(index, mlines):
+        flags, _, body = ml.partition(" | ")
+        mc = [x for x in body.split(";") if x]
+        ic = [cand_key(c) if c["type"] != "NULL" else "NULL" for c in case["cands"]]
+        fl = dict(x.split("=") for x in flags.split())
+        kind = bk["opts"]["kind"]
+        stats[kind] += 1
+        stats["candidates"] += len(ic)
+        if not ic:
+            stats["empty"] += 1
+        has_sent = any(c["type"] == "sentence" for c in case["cands"])
+        stats["sentence"] += has_sent
+        stats["completion_cands"] += sum(c["type"] == "completion" for c in case["cands"])
+        stats["long_code_cands"] += sum(1 for c in case["cands"] if c["type"] in ("phrase", "completion") and len(c["code"] or []) > 3)
+        stats["prefix_phrases"] += sum(1 for c in case["cands"] if kind == "table" and has_sent and c["type"] == "table")
+        if len(ic) >= 2:
+            nontrivial.add((bk["id"].split("_")[0], kind, tuple(ic)))
+        if mc != ic:
+            mism.append((bk, case, mc, ic))
+        if fl.get("orc") == "0" or (fl.get("asked") == "1" and fl.get("path") == "1" and not has_sent) or \
+                (has_sent and fl.get("path") == "0"):
+            oracle_bad.append((bk, case, flags))
+    # --- the property's own oracle on the implementation's observations
+    refs = {}
+    fails = []
+    out_of_domain = 0
+    for bk in blocks:
+        if bk["id"] not in by_id:
+            continue
+        d, v = by_id[bk["id"]]
+        ref = refs.setdefault(bk["id"], Ref(d, v))
+        # the reference numbers syllables by rank in the sorted syllabary; the table must agree (C06's business, cheap to check)
+        if [bk["syl"].get(i) for i in range(len(ref.syl))] != [s.encode() for s in ref.syl]:
+            ctx.violation("syllabary:" + bk["id"], "the compiled syllabary is not the sorted set of source syllables",
+                          {"schema": bk["id"], "table": {k: hx(x) for k, x in bk["syl"].items()}, "source": ref.syl}, found_input=True)
+            continue
+        wordcompl = bk["opts"].get("wordcompl") == "1"
+        for case in bk["cases"]:
+            if case["end"] is None:
+                continue
+            inp = case["input"].decode("latin-1")
+            if not ref.in_domain(inp):       # a leading delimiter cannot be typed (the speller refuses it as an initial):
+                out_of_domain += 1           # such inputs are checked for crashes and model agreement only
+                continue
+            try:
+                fl = ref.check_script(inp, case["cands"], wordcompl) if v["kind"] == "script" else ref.check_table(inp, case["cands"])
+            except Exception as ex:       # the reference itself must never take the check down silently
+                fl = [("reference-error", repr(ex))]
+            for cls, detail in fl:
+                fails.append((bk, case, cls, detail))
+    ctx.coverage.update({
+        "evaluations": len(index),
+        "distinct_nontrivial": len(nontrivial),
+        "rule": "one evaluation = one (schema, input): full candidate list of the real translator vs the extracted model vs the "
+                "source-row reference; non-trivial = distinct (dictionary, translator kind, candidate list) with at least two candidates",
+        "dictionaries": [{"name": d["name"], "style": d["style"], "letters": d["letters"], "syllables": d["syllables"],
+                          "rows": len(d["rows"]), "max_code_len": max(len(r[1]) for r in d["rows"]),
+                          "codes_longer_than_3": sum(len(r[1]) > 3 for r in d["rows"])} for d in dicts],
+        "variants": {"script": SCRIPT_VARIANTS, "table": TABLE_VARIANTS},
+        "distribution": stats,
+        "samples": [{"schema": bk["id"], "input": case["input"].decode("latin-1"),
+                     "candidates": [cand_key(c) for c in case["cands"][:6]]} for bk, case in index[7:len(index):max(1, len(index) // 6)]][:8],
+        "exhaustive": False,
+        "correspondence_mismatches": len(mism),
+        "oracle_hypothesis_failures": len(oracle_bad),
+        "property_failures_on_impl": len(fails),
+        "out_of_domain_inputs": out_of_domain,
+    })
+    # --- verdicts
+    seen = set()
+    for bk, case, cls, detail in fails:
+        d, v = by_id[bk["id"]]
+        key = "%s:%s:%s" % (v["kind"], cls, "sentence" if any(c["type"] == "sentence" for c in case["cands"]) else "plain")
+        if key in seen:
+            continue
+        seen.add(key)
+        ctx.violation(key, "%s translator: %s (%s)" % (v["kind"], cls, detail),
+                      {"schema": bk["id"], "variant": v, "input": case["input"].decode("latin-1"), "input_hex": hx(case["input"]),
+                       "failure": cls, "detail": detail, "candidates": [cand_key(c) for c in case["cands"]],
+                       "dict_yaml": files["%s.dict.yaml" % d["name"]], "schema_yaml": files["%s.schema.yaml" % bk["id"]],
+                       "how": "deploy the two files with rime_deployer, create the translator of the schema and query it with the "
+                              "input (harness/c07/c07.cc does this); candidate format: type start end text-hex code",
+                       "cmd": "VERIF_SEED=%d bin/check C07 %s" % (ctx.seed, ctx.tier)}, found_input=True)
+    if not proof_ok and not fails:
+        ctx.violation("proof:Properties_C07", "a proof obligation of Properties_C07.v no longer checks",
+                      {"failed": res["failed"], "forbidden": res.get("forbidden"),
+                       "log_tail": res["log"][-3000:] + ((res["props"] or {}).get("log", "")[-3000:])}, found_input=False)
+    if mism and not fails:
+        bk, case, mc, ic = mism[0]
+        ctx.violation("correspondence:c07", "model and implementation disagree on the candidate list",
+                      {"schema": bk["id"], "input": case["input"].decode("latin-1"), "model": mc, "impl": ic,
+                       "mismatches": len(mism), "graph": case["graph"]}, found_input=False)
+    if oracle_bad and not fails:
+        bk, case, flags = oracle_bad[0]
+        ctx.violation("oracle:poet", "the sentence produced by Poet is not a chain through the model's word graph (or is missing/unexpected)",
+                      {"schema": bk["id"], "input": case["input"].decode("latin-1"), "flags": flags,
+                       "candidates": [cand_key(c) for c in case["cands"]], "count": len(oracle_bad)}, found_input=False)
+
+
+MUTATION_DRILLS = []
+
+MANIFEST = {
+    "category": "proof",
+    "technique": "Coq theorems over a port of Table::Query / DictEntryIterator / Script- and TableTranslation (abstract syllable graph, "
+                 "table index and prism) + extracted-model/real-translator correspondence + brute-force reference from the source rows",
+    "text": "pending",
+    "note": "pending",
+}
 
 
 if __name__ == "__main__":       # developer mode: python3 checks/c07.py  -> dumps the harness output of a small plan
